@@ -512,6 +512,11 @@ def jobs_for(pid, tier):
             c.update(big)
             c.update(bigconsts or {})
             js.append(J(tag + "-n3", family, mode, c, **kw))
+            if not (set(family) & {"disjoint", "bulk", "serde", "unchecked"}):
+                # capacity 4 over 5 classes: every slot order of every content, one key version, one value content
+                c4 = dict(consts or {})
+                c4.update({"Caps": [4], "Classes": [0, 1, 2, 3, 4], "Vers": [0], "Vals": [0]})
+                js.append(J(tag + "-n4", family, mode, c4, **kw))
         return js
 
     def pairs(tag, family, mode, caps):
@@ -534,6 +539,8 @@ def jobs_for(pid, tier):
     else:
         micro_inject = [micro("mi-map-n%d" % n, "map", False, n, [1, 2, 3], MFAM, MaxJ=3, MaxItems=3) for n in (0, 1, 2)] + \
                        [micro("mi-map-n3", "map", False, 3, [1, 2, 3, 4], MFAM, MaxJ=3, MaxItems=3)] + \
+                       [micro("mi-map-n4", "map", False, 4, [1, 2, 3, 4, 5], ["core", "entry", "unchecked", "cursor", "clone"])] + \
+                       [micro("mi-set-n4", "set", False, 4, [1, 2, 3, 4, 5], ["core", "cursor", "clone"])] + \
                        [micro("mi-set-n%d" % n, "set", False, n, [1, 2, 3], SFAM, MaxItems=3) for n in (0, 1, 2)] + \
                        [micro("mi-set-n3", "set", False, 3, [1, 2, 3, 4], SFAM, MaxItems=4)]
         micro_adv = [micro("ma-map-n%d" % n, "map", True, n, [1], MFAM, MaxJ=4, MaxItems=4) for n in (0, 1, 2, 3, 4)] + \
